@@ -283,6 +283,8 @@ class Collocator:
                 # calculation.
                 if result is ProcessCrashed:
                     del process_progress[process]
+                    # This is only a marker, not a result for the caller:
+                    result = None
                 else:
                     process_progress[process] = progress
 
